@@ -10,12 +10,12 @@ import (
 
 func init() {
 	register(&Property{
-		ID:        "C35",
-		Roots:     []string{"snap"},
-		Technique: "writer/reader agreement between Revision.String and ParseRevision and between Epoch.simplify and Epoch.fromString (SSA value provenance + CFG must-pass gates); return-value provenance of Epoch.CanRead/intersect; validation gates of Epoch.fromStructured/Validate",
+		ID:          "C35",
+		Roots:       []string{"snap"},
+		Technique:   "writer/reader agreement between Revision.String and ParseRevision and between Epoch.simplify and Epoch.fromString (SSA value provenance + CFG must-pass gates); return-value provenance of Epoch.CanRead/intersect; validation gates of Epoch.fromStructured/Validate",
 		Explanation: "Structural necessary conditions of 'revisions and epochs round-trip; epoch compatibility is set intersection' (equality of the round trip for every value is not decided): (R1) Epoch.CanRead returns nothing but intersect(rs, ws) with rs drawn from the receiver's Read or {0} and ws from the other's Write or {0}; intersect returns true exactly on an element comparison r == w of its two operands; (R2) the short printed forms agree with the parser: simplify prints N only for read=[N],write=[N] and N* only for write=[N],read=[N-1,N] (adjacency tested), and fromString builds exactly those lists and refuses 0*; (R3) fromStructured publishes the epoch only after Validate accepted it, and Validate accepts a non-zero epoch only with both lists increasing, at most 10 long and intersect(Read, Write) - which with R1 gives 'every valid epoch reads its own data'; (R4) ParseRevision accepts only \"unset\" or a positive number converted at full int width (strconv.Atoi or bit size 0/64), negated exactly under the 'x' prefix that String prints for negative N; String prints \"unset\" only for N == 0; the JSON/YAML forms go through String and ParseRevision.",
-		NotDecided: "value equality of the round trip (e.g. that Sprintf(\"x%d\") and Atoi are inverse), uint32 list (un)marshalling inside encoding/json, the YAML decoder.",
-		Run:        runC35,
+		NotDecided:  "value equality of the round trip (e.g. that Sprintf(\"x%d\") and Atoi are inverse), uint32 list (un)marshalling inside encoding/json, the YAML decoder.",
+		Run:         runC35,
 	})
 }
 
@@ -244,7 +244,7 @@ func runC35(c *Ctx) {
 	}
 
 	// ---- R3
-	c.Rule("C35-R3", "G", "fromStructured publishes only validated epochs; Validate demands increasing lists, <= 10 entries and a read/write intersection", 4)
+	c.Rule("C35-R3", "G", "fromStructured publishes only validated epochs; Validate demands increasing lists, <= 10 entries and a read/write intersection", 6)
 	fst := P.Func(pkg + ".(*Epoch).fromStructured")
 	validate := P.FuncObj(pkg + ".(*Epoch).Validate")
 	for i, b := range fst.Blocks {
@@ -277,6 +277,50 @@ func runC35(c *Ctx) {
 	}
 	if n == 0 {
 		c.Undecided(pkg+".Epoch.Validate#accepts", val.Pos(), "no success return found")
+	}
+	// every place that refuses a list as too long uses the same bound: len > 10
+	tooLong := P.Const(pkg + ".epochListJustRidiculouslyLong")
+	nLim := 0
+	for _, fn := range P.FuncsIn(pkg) {
+		for _, b := range fn.Blocks {
+			uses := false
+			for _, in := range b.Instrs {
+				if st, ok := in.(*ssa.Store); ok && VConstObj(tooLong)(st.Val) {
+					uses = true
+				}
+			}
+			if !uses {
+				continue
+			}
+			// the edges entering this block
+			for _, pred := range b.Preds {
+				ifi, ok := pred.Instrs[len(pred.Instrs)-1].(*ssa.If)
+				if !ok {
+					continue
+				}
+				cd := Decompose(ifi.Cond)
+				nLim++
+				key := fmt.Sprintf("%s#too-long-bound#%d", SSAFuncName(fn), nLim)
+				c.touch(fn)
+				okB := false
+				if cd.Bin != nil && VLen(anyVal)(cd.Bin.X) {
+					k, isC := ConstInt(cd.Bin.Y)
+					onTrue := pred.Succs[0] == b
+					op := cd.Bin.Op
+					if cd.Neg {
+						onTrue = !onTrue
+					}
+					if !onTrue {
+						op = negOp[op]
+					}
+					okB = isC && ((op == token.GTR && k == 10) || (op == token.GEQ && k == 11))
+				}
+				c.Check(okB, key, ifi.Pos(), "refused iff len > 10", "a list is refused as too long under a different bound than `len > 10`: readers and Validate must agree, or a valid 10-entry epoch does not read back")
+			}
+		}
+	}
+	if nLim < 2 {
+		c.Undecided(pkg+"#too-long-bound", val.Pos(), "expected the two length tests of Validate")
 	}
 	// isIncreasing is strict
 	inc := P.Func(pkg + ".isIncreasing")
@@ -415,6 +459,30 @@ func runC35(c *Ctx) {
 		}
 		n++
 		c.Guarded(fmt.Sprintf("%s.Revision.UnmarshalJSON#accepts#%d", pkg, n), uj, r, []Clause{{OkCall("ParseRevision ok", prObj), OkCall("ParseInt ok", parseIntObj)}}, nil)
+	}
+	// the bare-number form is tried only for input that is not a quoted string: a quoted string that
+	// ParseRevision refused must not get a second chance as a number ("0", "-1" are not revisions)
+	isQuote := func(v ssa.Value) bool { k, ok := ConstInt(v); return ok && k == '"' }
+	quoted := Atom{Name: "input is quoted", Match: func(cd Cond) Pol {
+		if cd.Bin == nil {
+			return PolNone
+		}
+		return cd.CmpIs(token.EQL, func(v ssa.Value) bool {
+			switch x := Strip(v).(type) {
+			case *ssa.UnOp:
+				_, ok := x.X.(*ssa.IndexAddr)
+				return ok && x.Op == token.MUL
+			case *ssa.Index, *ssa.Lookup:
+				return true
+			}
+			return false
+		}, isQuote)
+	}}
+	for i, cc := range CallSites(uj, parseIntObj) {
+		c.Guarded(fmt.Sprintf("%s.Revision.UnmarshalJSON#number-form-only-when-unquoted#%d", pkg, i+1), uj, cc, []Clause{{Not(quoted), Not(Cmp("len(data)>0", VLen(anyVal), token.GTR, VConstInt(0)))}}, nil)
+	}
+	for i, cc := range CallSites(uj, prObj) {
+		c.Guarded(fmt.Sprintf("%s.Revision.UnmarshalJSON#string-form-only-when-quoted#%d", pkg, i+1), uj, cc, []Clause{{quoted}}, nil)
 	}
 	uy := P.Func(pkg + ".(*Revision).UnmarshalYAML")
 	c.touch(uy)
